@@ -187,7 +187,7 @@ pub fn property(ctx: &Ctx) -> Property {
             "checked build (overflow checks + debug assertions): sw_composite::pack_argb32's own debug assertion r,g,b <= a is live and counts as the same invariant; its known failures in the four non-separable modes are listed findings",
         ],
         parts: vec![
-            part("scenes", 30_000, 1_000_000, move || strategy(&c), check),
+            part("scenes", 100_000, 2_000_000, move || strategy(&c), check),
             enum_part("sweep", 28 * 12, 28 * 12, sweep_decode, check_sweep),
             enum_part("conv", 256, 256, |_t, i| ConvCase { a: i as u8 }, check_conv),
         ],
